@@ -289,6 +289,100 @@ def explore(params, depth, mid=True):
             "samples": samples, "mid_outcomes": mid_outcomes}
 
 
+# ---------------------------------------------------------------- conformance with a real master ----
+
+def _real_supported(script):
+    for ev in flat(script):
+        if ev[0] == "exit" and ev[2] not in (0, 9):
+            return False
+        if ev[0] in ("exit2",) and ev[3] != 9:
+            return False
+        if ev[0] not in ("exit", "exit2", "sig", "tick"):
+            return False
+    return True
+
+
+def _conf_task(script):
+    """Replays one simulated history on a real master; compares the number of live workers after settling."""
+    import os
+    import signal as sg
+    import time
+    from vlib import realproc as rp
+    params = {"workers": 2, "timeout": 30, "term": "now", "hup_workers": 2}
+    k, o = execute(params, script, settle=3)
+    if o.end != "horizon":
+        return None
+    want = len([p for p in k.children() if p.alive and p.kind == "worker"])
+    want_target = o.arbiter.num_workers
+    s = rp.Server(worker_class="sync", workers=2, bind="unix", graceful_timeout=2, timeout=30)
+    try:
+        if not s.start():
+            return ("infrastructure", "server did not start")
+        time.sleep(0.4)
+        for ev in script:
+            evs = ev if isinstance(ev[0], (tuple, list)) else [ev]
+            ws = sorted(s.workers())
+            for e in evs:
+                if e[0] == "exit":
+                    if e[1] < len(ws):
+                        os.kill(ws[e[1]], sg.SIGKILL if e[2] == 9 else sg.SIGTERM)
+                elif e[0] == "exit2":
+                    for r in (e[1], e[2]):
+                        if r < len(ws):
+                            os.kill(ws[r], sg.SIGKILL)
+                elif e[0] == "sig":
+                    os.kill(s.master_pid, getattr(sg, "SIG" + e[1]))
+                elif e[0] == "tick":
+                    time.sleep(1.1)
+            time.sleep(0.7)
+        # settle
+        got = None
+        end = time.time() + 6
+        while time.time() < end:
+            got = len(s.workers())
+            if got == want:
+                time.sleep(0.5)
+                got = len(s.workers())
+                if got == want:
+                    break
+            time.sleep(0.2)
+        if s.proc.poll() is not None:
+            return ("mismatch", "history %r: the real master exited (%r), the simulated one keeps running" % (ser(script), s.proc.returncode))
+        if got != want:
+            return ("mismatch", "history %r: %d live workers on the real master, %d in the simulation (target %d)" % (ser(script), got, want, want_target))
+        return ("ok", "")
+    finally:
+        s.cleanup()
+
+
+def conformance(n, seed=0):
+    params = {"workers": 2, "timeout": 30, "term": "now", "hup_workers": 2}
+    scripts = [[]]
+    for d in range(2):
+        nxt = []
+        for sc in scripts:
+            for ev in events_for(2):
+                nxt.append(sc + [ev])
+        scripts = scripts + nxt
+    scripts = [sc for sc in scripts if sc and _real_supported(sc)]
+    # deterministic spread over the history space
+    step = max(1, len(scripts) // n)
+    chosen = scripts[::step][:n]
+    res = par.pmap(_conf_task, chosen, jobs=10)
+    ok = sum(1 for r in res if r and r[0] == "ok")
+    mism = [r for r in res if r and r[0] == "mismatch"]
+    # a disagreement is re-run serially before it counts (real processes, wall-clock settling)
+    confirmed = []
+    for sc, r in zip(chosen, res):
+        if r and r[0] == "mismatch":
+            r2 = _conf_task(sc)
+            if r2 and r2[0] == "mismatch":
+                confirmed.append(r2[1])
+            else:
+                ok += 1
+    return ok, confirmed
+
+
 def param_sets(thorough):
     P = []
     if thorough:
@@ -320,9 +414,13 @@ def run(ctx):
         viols += st["viols"]
         samples += st["samples"][:1]
         per["w%(workers)d/t%(timeout)d/%(term)s" % params + ("/other" if params.get("other") else "") + ("/pids-descending" if params.get("pids") else "")] = [st["states"], st["transitions"], st["mid_runs"]]
+    nconf, mism = conformance(40 if ctx.thorough else 12, ctx.seed)
+    if mism and not viols:
+        # no verdict is issued from a simulation that a real master contradicts
+        raise AssertionError("simulated kernel disagrees with a real master: %r" % mism[:2])
     cov = {
         "states": tot["states"], "transitions": tot["transitions"],
-        "traces_validated_against_impl": 0,
+        "traces_validated_against_impl": nconf,
         "samples": samples[:6],
         "midflight_runs": tot["mid_runs"],
         "evaluations": tot["transitions"] * 3 + tot["mid_runs"], "distinct_nontrivial": tot["states"],
@@ -340,7 +438,8 @@ def run(ctx):
                   ["workers are modelled processes (react to TERM now / late / never); the master is the real Arbiter code",
                    "Python-level signal handlers run at facade calls and at WORKERS accesses (delivery points), not between arbitrary bytecodes",
                    "healthy workers always have a fresh heartbeat (hangs are C11)",
-                   "traces_validated_against_impl: the simulated kernel is validated against real gunicorn masters by the C04/C10 real-process runs, not here"])
+                   "traces_validated_against_impl: explored histories (worker killed / asked to stop, TTIN, TTOU, HUP, ticks, pairs) replayed on a real master with real sync workers; "
+                   "compared: the number of live workers after settling.  A disagreement is a harness error (exit 2), never a verdict"])
 
 
 def replay(case):
